@@ -6,7 +6,7 @@ import ast
 from typing import Dict, List, Optional, Set, Tuple
 
 from .. import emit
-from ..core import AnalysisError, Func, call_name, norm, short, walk_no_nested
+from ..core import AnalysisError, Func, call_name, const_str, norm, short, walk_no_nested
 from ..util import guards_of, raises_in, try_handlers_enclosing
 
 LIMIT_ERRORS = ("TimeLimitError", "MemoryLimitError")
@@ -627,3 +627,82 @@ def rule_signal_not_swallowed(ctx, rep, rid: str) -> None:
                     rep.ok(rid, key, {"handler": "body runs a separately constructed interpreter"})
                 else:
                     rep.bad(rid, key, f"{f.qual} wraps a call that can run a script callback ({short(reaching[0], 50)}) in `except {norm(h.type) if h.type else ''}`, which also catches the unwinding signal {cls}: a script exception travelling to an outer catch is turned into something else here", f"{f.module.rel}:{h.lineno}")
+
+
+# ---- error objects: prototype chain to Error, uncaught errors keep their name -------------------------
+def rule_error_prototype_chain(ctx, rep, rid: str) -> None:
+    """`e instanceof Error` holds for every native error: the prototype object a derived error constructor
+    installs is created with Error.prototype as its parent."""
+    rep.rule(rid, "the factory of error constructors creates each prototype object with a parent taken from its caller, and every registration of a constructor other than Error passes Error's prototype (runtime errors are instanceof Error)", floor=2)
+    fac = None
+    for f in ctx.tree.funcs:
+        if f.module.name == "context" and "error" in f.name.lower() and "constructor" in f.name.lower() and f.is_method:
+            fac = f
+    if fac is None:
+        raise AnalysisError("error-constructor factory not found in the context module")
+    # the prototype object: a JSObject(..) local on which .set("name", <name parameter>) is called
+    params = [p for p in fac.params() if p != "self"]
+    proto = None
+    for n in fac.own_nodes():
+        if isinstance(n, ast.Call) and isinstance(n.func, ast.Attribute) and n.func.attr == "set" and len(n.args) == 2 and const_str(n.args[0]) == "name" and isinstance(n.args[1], ast.Name) and n.args[1].id in params and isinstance(n.func.value, ast.Name):
+            proto = n.func.value.id
+    if proto is None:
+        raise AnalysisError(f"{fac.qual}: prototype object (the one given the constructor's name) not found")
+    ctor = [n for n in fac.own_nodes() if isinstance(n, ast.Assign) and any(isinstance(t, ast.Name) and t.id == proto for t in n.targets) and isinstance(n.value, ast.Call)]
+    key = f"{fac.qual}:prototype-parent"
+    parent_param = None
+    for n in ctor:
+        if n.value.args and isinstance(n.value.args[0], ast.Name) and n.value.args[0].id in params:
+            parent_param = n.value.args[0].id
+    if parent_param is None:
+        rep.bad(rid, key, f"{fac.qual} creates the prototype object `{proto}` without a parent ({short(ctor[0].value, 40) if ctor else '?'}): TypeError.prototype and the others do not inherit from Error.prototype, so `e instanceof Error` is false for runtime errors", f"{fac.module.rel}:{ctor[0].lineno if ctor else fac.node.lineno}")
+    else:
+        rep.ok(rid, key, {"parent parameter": parent_param})
+    from ..util import bind_args
+
+    n_reg = 0
+    for cs in ctx.cg.sites:
+        if cs.kind == "resolved" and any(t is fac for t in cs.targets):
+            b = bind_args(cs.call, fac)
+            name_arg = b.get(params[0])
+            is_base = const_str(name_arg) == "Error" if name_arg is not None else False
+            n_reg += 1
+            key = f"{cs.func.qual}:{fac.name}({short(name_arg, 20) if name_arg is not None else ''})"
+            parg = b.get(parent_param) if parent_param else None
+            if is_base:
+                rep.ok(rid, key, {"base": True})
+            elif parg is None or (isinstance(parg, ast.Constant) and parg.value is None):
+                rep.bad(rid, key, f"{cs.func.qual} creates an error constructor other than Error without handing it Error's prototype: its instances are not instanceof Error", f"{cs.func.module.rel}:{cs.line}")
+            elif "prototype" in norm(parg) and "rror" in norm(parg):
+                rep.ok(rid, key, {"parent": norm(parg)})
+            else:
+                rep.bad(rid, key, f"{cs.func.qual} passes {short(parg, 40)} as the parent of a derived error prototype, which is not Error's prototype", f"{cs.func.module.rel}:{cs.line}")
+    if n_reg < 2:
+        raise AnalysisError("fewer than two error-constructor registrations found")
+
+
+def rule_uncaught_keeps_name(ctx, rep, rid: str) -> None:
+    """An uncaught throw of an error OBJECT makes eval raise a JSError that carries the object's name and message."""
+    rep.rule(rid, "where an uncaught thrown object is turned into the JSError that eval raises, both its message and its name are taken from the object", floor=1)
+    vmcls = ctx.facts.vm_dispatcher()[0].cls
+    thr = ctx.tree.find_method(vmcls, "_throw")
+    if thr is None:
+        raise AnalysisError("VM._throw not found")
+    n_sites = 0
+    for n in thr.own_nodes():
+        if isinstance(n, ast.Raise) and isinstance(n.exc, ast.Call) and call_name(n.exc) == "JSError":
+            g = [norm(t) for t, pol in guards_of(n, thr.node) if pol]
+            if not any("isinstance(exc, JSObject)" in x for x in g):
+                continue
+            n_sites += 1
+            key = f"{thr.qual}:uncaught-object"
+            txt = norm(n.exc)
+            pre = " ".join(norm(s) for s in thr.own_nodes() if isinstance(s, ast.Assign) and s.lineno < n.lineno and s.lineno > n.lineno - 8)
+            has_name = (len(n.exc.args) >= 2 or any(k.arg == "name" for k in n.exc.keywords)) and ("get('name')" in txt or "get('name')" in pre)
+            has_msg = "get('message')" in txt or "get('message')" in pre
+            if has_name and has_msg:
+                rep.ok(rid, key)
+            else:
+                rep.bad(rid, key, f"{thr.qual} raises JSError for an uncaught error object without its {'name' if not has_name else 'message'}: `throw new RangeError('x')` reaches Python as \"Error: x\"", f"{thr.module.rel}:{n.lineno}")
+    if n_sites == 0:
+        raise AnalysisError("the uncaught-object branch of VM._throw was not found")
